@@ -207,13 +207,22 @@ func TestC13Paging(t *testing.T) {
 				}
 				req.Cookie = ents[len(ents)-1].Cookie
 				if mutate && !cut {
-					switch rapid.IntRange(0, 3).Draw(t, "mut") {
+					switch rapid.IntRange(0, 4).Draw(t, "mut") {
 					case 0:
 						addOne()
 					case 1:
-						before := len(d.Children)
 						removeOne()
-						_ = before
+					case 2:
+						// remove exactly the entry whose cookie is about to be passed back (what "rm -r" does)
+						last := ents[len(ents)-1].Name
+						if n := d.Children[last]; n != nil {
+							if n.IsDir() {
+								do(x.Rmdir(dref, last))
+							} else {
+								do(x.Remove(dref, last))
+							}
+							St.Class("removed_the_entry_whose_cookie_is_passed_back")
+						}
 					}
 					for name, in := range start {
 						if name != "." && name != ".." && d.Children[name] != in.obj {
